@@ -25,6 +25,51 @@ func c15(p *core.Prog, r *core.Report) {
 	r.Rule("C15-R2", "E6 provenance", 5, "heap index back-pointers maintained")
 	r.Rule("C15-R3", "E6 paths", 4, "selection restores the heap")
 	r.Rule("C15-R4", "constants/guards", 4, "score tiers and the no-peers condition")
+	if f := mustFunc(p, r, "", "Peer", "NumPendingOutbound"); f != nil {
+		names := map[string]bool{}
+		core.EachInstr(f, func(i ssa.Instruction) {
+			if v, ok := i.(ssa.Value); ok {
+				if fl := core.LoadedField(v); fl != nil {
+					names[fl.Name()] = true
+				}
+			}
+		})
+		r.Check(names["inboundConnections"] && names["outboundConnections"], "C15-R4", fname(f), "pending calls counted on inbound and outbound connections", p.Pos(f.Pos()), "both connection lists are walked",
+			"the load used for scoring ignores the calls pending on one kind of connection: peers reached that way always look idle")
+	}
+	if f := mustFunc(p, r, "", "PeerList", "choosePeer"); f != nil {
+		// the scan that skips ineligible peers may pop every element: its bound
+		// is the heap's length, not something smaller (one tried host can make
+		// many peers ineligible)
+		ok, how := false, "no pop loop bounded by the heap length found"
+		for _, l := range core.Loops(f) {
+			hasPop := false
+			for b := range l.Blocks {
+				for _, i := range b.Instrs {
+					if _, isPop := core.IsCall(i, "peerHeap.popPeer"); isPop {
+						hasPop = true
+					}
+				}
+			}
+			if !hasPop {
+				continue
+			}
+			ifi, isIf := l.Header.Instrs[len(l.Header.Instrs)-1].(*ssa.If)
+			if !isIf {
+				continue
+			}
+			bo, isBO := ifi.Cond.(*ssa.BinOp)
+			if !isBO || bo.Op != token.LSS {
+				continue
+			}
+			if callResult(bo.Y, "peerHeap.Len") != nil {
+				ok = true
+			} else {
+				how = "the scan over the heap is bounded by " + desc(bo.Y) + " instead of the heap length: eligible peers behind that many ineligible ones are never reached"
+			}
+		}
+		r.Check(ok, "C15-R3", fname(f), "the selection scan can reach every heap element", p.Pos(f.Pos()), "loop bound = peerHeap.Len()", how)
+	}
 	r.Rule("C15-R6", "E6 provenance", 3, "tried peers and their hosts are recorded and handed to selection (shared with C17)")
 	r.Alias("C17-R4", "C15-R6")
 	c17State(p, r)
@@ -365,6 +410,25 @@ func c16(p *core.Prog, r *core.Report) {
 		r.Check(fn == "addConnection" || fn == "removeClosedConn", "C16-R1", fname(a.Fn), "write to Channel.conns", p.Pos(a.Instr.Pos()), "only addConnection / removeClosedConn", "the channel's connection table is modified elsewhere")
 	}
 	channelTracksOnlyOpen(p, r, "C16-R1")
+	refusedConnIsClosed(p, r, "C16-R1")
+	if f := mustFunc(p, r, "", "Channel", "addConnectionToPeer"); f != nil {
+		ok := onEveryPath(f, "PeerList.GetOrAdd", "RootPeerList.GetOrAdd", "RootPeerList.Add", "PeerList.Add") && onEveryPath(f, "Peer.addConnection")
+		r.Check(ok, "C16-R1", fname(f), "the peer is created if needed and given the connection", p.Pos(f.Pos()), "GetOrAdd then addConnection on every path", "a connection can stay unlisted because its peer does not exist yet")
+	}
+	if f := mustFunc(p, r, "", "Channel", "Connect"); f != nil {
+		// the registration under the dialled address depends only on the two
+		// addresses differing, not on a peer already existing for it
+		how := ""
+		for _, c := range core.CallsIn(f, "Channel.addConnectionToPeer") {
+			if factsAt(c.Block()).hasBool(func(v ssa.Value) bool {
+				ex, ok := v.(*ssa.Extract)
+				return ok && ex.Index == 1 && callResult(ex.Tuple, "RootPeerList.Get", "PeerList.Get") != nil
+			}, true) {
+				how = "the connection is listed under the dialled address only if a peer for it already exists"
+			}
+		}
+		r.Check(how == "", "C16-R3", fname(f), "listing under the dialled address does not depend on an existing peer", p.Pos(f.Pos()), "no peer-lookup guard on addConnectionToPeer", how)
+	}
 	// one Peer object per host:port: the root list creates a peer only after a
 	// lookup miss made under its write lock (a second object for the same
 	// address would carry connections the root peer does not list)
@@ -776,4 +840,32 @@ func channelTracksOnlyOpen(p *core.Prog, r *core.Report, rule string) {
 		})
 		r.Check(ok1 && ok2, rule, fname(f), "tracked only if the connection is active and the channel is not closing", p.Pos(f.Pos()), "both guards dominate the insert", fmt.Sprintf("connection can be tracked in another state (connActive=%v channelOpen=%v)", ok1, ok2))
 	}
+}
+
+// refusedConnIsClosed: a connection that became active but is refused by
+// Channel.addConnection (channel closing, connection no longer active) is
+// closed on every path; otherwise it lives on, tracked by nobody (shared by
+// C16 and C11).
+func refusedConnIsClosed(p *core.Prog, r *core.Report, rule string) {
+	f := mustFunc(p, r, "", "Channel", "connectionActive")
+	if f == nil {
+		return
+	}
+	adds := core.CallsIn(f, "Channel.addConnection")
+	ok, how := len(adds) == 1, "addConnection call not found"
+	if ok {
+		av := adds[0].Value()
+		ok = false
+		for _, b := range f.Blocks {
+			if !factsAt(b).hasBool(func(v ssa.Value) bool { return v == ssa.Value(av) }, false) || len(b.Preds) != 1 {
+				continue
+			}
+			isClose := func(i ssa.Instruction) bool { _, is := core.IsCall(i, "Connection.close", "Connection.Close"); return is }
+			res := core.ReachAvoiding(f, b.Instrs[0], core.IsReturn, isClose, nil)
+			ok = !res.Found || isClose(b.Instrs[0])
+			how = "a refused connection is left open and untracked: " + p.TrailString(res)
+			break
+		}
+	}
+	r.Check(ok, rule, fname(f), "a connection refused by addConnection is closed", p.Pos(f.Pos()), "the !added arm passes c.close on every path", how)
 }
